@@ -673,6 +673,15 @@ func (g *gen) atPosition() {
 		g.c.Count("imm@" + pos + "/" + cls)
 		g.c.NonTrivial("imm@" + pos + "/" + cls)
 	}
+	if strings.HasPrefix(pos, "ooo.") && len(g.held) < 3 && g.r.Chance(50) {
+		// a query over everything (so it reads the OOO chunks about to be collected), held for a while
+		g.nq++
+		id := "q" + strconv.Itoa(g.nq)
+		g.op(fmt.Sprintf("open %s %d %d", id, g.dmin-1, g.dmax+1))
+		g.held = append(g.held, heldQ{id: id, ttl: 3 + g.r.Intn(6)})
+		g.c.Count("held@" + pos + "/all")
+		g.c.NonTrivial("held@" + pos + "/all")
+	}
 	if len(g.held) < 3 && g.r.Chance(22) {
 		id, cls := g.newQ()
 		hq := heldQ{id: id, ttl: 1 + g.r.Intn(9)}
@@ -752,7 +761,7 @@ func genCase(c *h.Ctx, k int, fine bool) {
 	g := &gen{c: c, e: e, r: r, pts: map[string]bool{}}
 	c.Case(fmt.Sprintf("r%d-%d", c.Seed, k))
 	g.R = h.Pick(r, []int64{1000, 1000, 600, 2000})
-	withOOO := r.Chance(70)
+	withOOO := r.Chance(70) || k%4 != 3
 	window := int64(0)
 	if withOOO {
 		window = 20 * g.R
@@ -848,6 +857,9 @@ func genCase(c *h.Ctx, k int, fine bool) {
 	// the maintenance plan
 	var jobs []string
 	pick := r.Intn(6)
+	if k < 6 {
+		pick = k // the first cases walk through the plans, so that a small quick tier covers them
+	}
 	if !fine {
 		// Without the verifAt call sites only the two existing test callbacks park the maintenance
 		// goroutine; block compaction is then unobservable, so only head and OOO jobs are run.
